@@ -743,9 +743,13 @@ pub fn c08_replay(subject: &dyn Subject, v: &Value) -> (bool, String) {
 /// For every item of the clean one-shot run: the offset of the last byte of the line (gating unit)
 /// that completes it = end of the gating unit containing the last byte of the shortest prefix on
 /// which the parser (fed that prefix followed by end of input) hands out the same item.
-pub fn completion_offsets(subject: &dyn Subject, input: &[u8], reference: &Execution) -> Vec<usize> {
+pub fn completion_offsets(subject: &dyn Subject, input: &[u8], reference: &Execution) -> (Vec<usize>, Vec<bool>) {
     let bounds = subject.boundaries(input);
     let mut out = Vec::new();
+    // strict[i]: the shortest prefix of item i ends exactly with the line feed of its completing line
+    // and more input follows: the item is complete without any knowledge of what comes next, so
+    // even ASKING the source for more before handing it out is waiting for data nobody needs
+    let mut strict = Vec::new();
     let mut p = 0usize;
     for i in 0..reference.items.len() {
         // monotone in i: start from the previous minimal prefix
@@ -763,11 +767,12 @@ pub fn completion_offsets(subject: &dyn Subject, input: &[u8], reference: &Execu
         // end of the gating unit containing byte p_min-1 (or the first unit if p_min == 0)
         let e = bounds.iter().copied().find(|&b| b >= p_min.max(1)).unwrap_or(input.len());
         out.push(e.saturating_sub(1));
+        strict.push(p_min >= 1 && p_min < input.len() && p_min == e && input[p_min - 1] == b'\n');
     }
-    out
+    (out, strict)
 }
 
-pub fn c09_judge(ex: &Execution, reference: &Execution, completion: &[usize]) -> Option<(usize, String)> {
+pub fn c09_judge(ex: &Execution, reference: &Execution, completion: &[usize], strict: &[bool]) -> Option<(usize, String)> {
     for (i, &handed) in ex.handed_out_at_item.iter().enumerate() {
         if i >= completion.len() {
             break;
@@ -777,6 +782,13 @@ pub fn c09_judge(ex: &Execution, reference: &Execution, completion: &[usize]) ->
         }
         if handed > completion[i] + 1 {
             return Some((i, format!("item #{i} ({}) was handed out only after the source had delivered {handed} bytes; the line that completes it ends at offset {} ({} bytes)", ex.items[i], completion[i], completion[i] + 1)));
+        }
+        // asking counts as well: a read issued after the completing line had been delivered in full
+        // waits for the next line (or for the end of the input) before the item is handed out
+        if let Some(&asked) = ex.asked_at_item.get(i) {
+            if asked > completion[i] && strict.get(i) == Some(&true) {
+                return Some((i, format!("item #{i} ({}) was handed out only after the source had been asked for more at offset {asked}, behind the line that completes it (ends at offset {})", ex.items[i], completion[i])));
+            }
         }
     }
     if ex.items.len() < reference.items.len() && matches!(reference.end, End::Clean) {
@@ -806,7 +818,7 @@ pub fn c09(subjects: &[Box<dyn Subject>], docs: &[Doc], tier: Tier, budget: &Bud
                 return; // the property speaks about well-formed documents
             }
             acc.states += 1;
-            let completion = completion_offsets(subject, input, &reference);
+            let (completion, strict) = completion_offsets(subject, input, &reference);
             let mut judge = |spec: &Spec, ex: &Execution, rep: &mut Report| {
                 rep.evaluations += 1;
                 rep.transitions += ex.src.borrow().read_calls as u64;
@@ -814,7 +826,7 @@ pub fn c09(subjects: &[Box<dyn Subject>], docs: &[Doc], tier: Tier, budget: &Bud
                 let max_slack = ex.handed_out_at_item.iter().zip(completion.iter()).map(|(h, c)| (c + 1).saturating_sub(*h)).min().unwrap_or(0);
                 rep.max("min_slack_bytes_between_completion_and_delivery", max_slack as u64);
                 rep.outcome(format!("{}:{}", family_of(subject), ex.items.len().min(6)));
-                if let Some((item, why)) = c09_judge(ex, &reference, &completion) {
+                if let Some((item, why)) = c09_judge(ex, &reference, &completion, &strict) {
                     let key = format!("{}/read-ahead/{}", family_of(subject), reference.items[item.min(reference.items.len() - 1)].split(|c: char| !c.is_alphanumeric()).next().unwrap_or("item"));
                     rep.violation_with(&key, (input.len() * 1000 + spec.forced.len()) as u64, || (format!("{} on {:?} [{}]: {why}", subject.name(), show(input), spec.describe()), replay_json("C09", subject, input, spec)));
                 }
@@ -834,9 +846,9 @@ pub fn c09_replay(subject: &dyn Subject, v: &Value) -> (bool, String) {
     let input = unhex(v["input_hex"].as_str().unwrap());
     let spec = Spec::from_json(&v["spec"]);
     let reference = run_spec(subject, &input, &Spec::oneshot());
-    let completion = completion_offsets(subject, &input, &reference);
+    let (completion, strict) = completion_offsets(subject, &input, &reference);
     let ex = run_spec(subject, &input, &spec);
-    let verdict = c09_judge(&ex, &reference, &completion);
+    let verdict = c09_judge(&ex, &reference, &completion, &strict);
     let text = format!(
         "{} on {:?} [{}]\n  items: {:?}\n  completing line ends at offsets: {:?}\n  bytes handed out when each item was returned: {:?}\n  {}\n",
         subject.name(), show(&input), spec.describe(), ex.items, completion, ex.handed_out_at_item, verdict.as_ref().map_or("ok".to_string(), |(_, w)| w.clone())
@@ -1096,6 +1108,15 @@ pub fn stream_once(subject: &dyn Subject, case: &StreamCase, total_bytes: u64, c
     let repeats = total_bytes / case.period.len().max(1) as u64;
     let src = GenSource { prefix: case.prefix.clone(), period: case.period.clone(), repeats, suffix: case.suffix.clone(), grain, pos: 0 };
     let mut items = 0u64;
+    // an allocation failure aborts the process: the abort guard turns that into a verdict for this case
+    let describe = || {
+        (
+            format!("{}/streaming-memory/abort", case.label),
+            format!("{} streaming {} bytes (chunk {chunk}, {grain} bytes per read): the process aborted (allocation failure?)", subject.name(), total_bytes),
+            json!({"property": "C10", "subject": subject.name(), "case": case.label, "bytes": total_bytes, "chunk": chunk, "grain": grain}),
+        )
+    };
+    let _guard = crate::abortguard::enter(&describe);
     crate::alloc::start();
     let res = crate::subject::catch(|| {
         let mut reader = flussab::DeferredReader::from_read(src);
